@@ -68,6 +68,7 @@ class St:
         self.kinds = []
         self.dropped = False
         self.skipped = False
+        self.arg_mutated = None
 
 
 def vec(n, which):
@@ -93,6 +94,26 @@ def other_comb(top, variant):
         delta_pdb_per_channel=np.zeros(k), tx_osnr=np.full(k, 40.0), tx_power=np.full(k, 1e-3), label=np.full(k, 'y'))
 
 
+_ARGS = {}
+
+
+def operand(key, make):
+    """the operand arrays of the noise operations are built once per process and the SAME array object is handed to every
+    later call of that menu entry (an amplifier model may keep its ASE vector; a caller may add one vector to several
+    spectra): an operation must not change the arrays it is given.  Returns (array, pristine copy)."""
+    import numpy as np
+    if key not in _ARGS:
+        v = np.array(make(), dtype=float)
+        _ARGS[key] = (v, v.copy())
+    return _ARGS[key]
+
+
+def observe(si):
+    """read every reported figure, as a transceiver (or a user) may do between any two operations: reading must be free
+    of side effects, and the next read must reflect the operations applied since"""
+    return [si.gsnr, si.snr_lin, si.snr_nli, si.signal, si.ase, si.nli, si.pch, si.ptot_dbm]
+
+
 def apply(st, ev):
     """apply one event to the real object and to the model (the model uses the same float operands, exactly)"""
     import numpy as np
@@ -103,6 +124,8 @@ def apply(st, ev):
     nch = si.number_of_channels
     freqs = [float(f) for f in si.frequency]
     st.skipped = False
+    st.arg_mutated = None
+    observe(si)
     if kind == 'att_db':
         si.apply_attenuation_db(arg)
         k = Fr(float(1 / db2lin(arg)))
@@ -124,13 +147,21 @@ def apply(st, ev):
         for f, k in zip(freqs, v):
             st.model[f] = [x * Fr(float(k)) for x in st.model[f]]
     elif kind == 'ase':
-        v = arg * 1e-3 * vec(nch, 'att')          # watts, relative to 0 dBm
-        si.add_ase(np.array(v))
+        v, v0 = operand(('ase', arg, nch), lambda: arg * 1e-3 * vec(nch, 'att'))          # watts, relative to 0 dBm
+        si.add_ase(v)
+        if not np.array_equal(v, v0):
+            st.arg_mutated = f'add_ase changed the array it was given: {v0[:2].tolist()} -> {v[:2].tolist()}'
+            v[:] = v0
+        v = v0
         for f, a in zip(freqs, v):
             st.model[f][1] += Fr(float(a))
     elif kind == 'nli':
         v = arg * vec(nch, 'att') * si.pch       # a share of the current channel power
-        si.add_nli(np.array(v))
+        v0 = v.copy()
+        si.add_nli(v)
+        if not np.array_equal(v, v0):
+            st.arg_mutated = f'add_nli changed the array it was given: {v0[:2].tolist()} -> {v[:2].tolist()}'
+        v = v0
         for f, n in zip(freqs, v):
             s, a, nn = st.model[f]
             p = s + a + nn
@@ -303,6 +334,8 @@ def step_check(hist, ev, prev, nxt):
     out = invariants(nxt, len(hist))
     # total power changes only by the factor / addend of the operation (model already encodes it; here the
     # conservation clauses that do not depend on the model: noise additions)
+    if getattr(nxt, 'arg_mutated', None):
+        out.append(dict(fingerprint='operation-changed-its-operand', what=nxt.arg_mutated))
     if not nxt.skipped:
         kind = ev[0]
         if kind == 'nli':
